@@ -120,7 +120,7 @@ func guardedBy(w *core.World, r *core.Report, lw *core.LockWorld, rule string, t
 
 func c16(w *core.World, r *core.Report) {
 	typesPkg := core.Module + "/pkg/datastore/types"
-	inTypes := func(f *ssa.Function) bool { return f.Pkg != nil && f.Pkg.Pkg.Path() == typesPkg }
+	inTypes := func(f *ssa.Function) bool { return f.Pkg != nil && core.PkgPath(f) == typesPkg }
 
 	// the guard-cleanup closure is the one caller of CleanupTransaction without tmMutex
 	cleanupClosureReason := "the guard's cleanup closure runs in TransactionSet under dmutex (which excludes Confirm/Cancel) and only when the rollback timer was not started (error / dry-run / failed validation), so no other manager method can run concurrently"
@@ -366,7 +366,7 @@ func c16(w *core.World, r *core.Report) {
 						if k := core.CalleeKey(x); k == "time.Sleep" || k == "time.After" || k == "time.NewTicker" || k == "time.NewTimer" || k == "time.Tick" || k == "sync.WaitGroup.Wait" || k == "sync.Cond.Wait" {
 							return core.FuncKey(f) + ": " + k
 						}
-						if g := x.Common().StaticCallee(); g != nil && g.Pkg != nil && g.Pkg.Pkg.Path() == core.Module+"/pkg/datastore/types" {
+						if g := x.Common().StaticCallee(); g != nil && g.Pkg != nil && core.PkgPath(g) == core.Module+"/pkg/datastore/types" {
 							if _, isDefer := x.(*ssa.Defer); !isDefer || true {
 								if wv := waits(g, d+1); wv != "" {
 									return wv
